@@ -162,14 +162,20 @@ theorem sense_keys_have_t10_names :
 /-- the vendor-specific ranges are 80h–FFh -/
 theorem vendor_range : Gen.vendorAscLo = 0x80 ∧ Gen.vendorAscHi = 0xFF := by decide +kernel
 
-/-- a listed, non-vendor pair is described by the table's own text -/
-theorem listed_pair_uses_table (asc ascq : Nat) (t : String) (ha : asc < 0x80) (hq : ascq < 0x80)
+/-- **every listed pair is described by the table's own text** (also inside the vendor ranges: 5Dh/FFh) -/
+theorem listed_pair_uses_table (asc ascq : Nat) (t : String)
     (ht : lookupText Gen.senseAscq (asc * 256 + ascq) = some t) : describeAscq asc ascq = t := by
-  unfold describeAscq
-  obtain ⟨v1, v2⟩ := vendor_range
-  have h1 : ¬ (Gen.vendorAscLo ≤ asc ∧ asc ≤ Gen.vendorAscHi) := by rw [v1]; omega
-  have h2 : ¬ (Gen.vendorAscLo ≤ ascq ∧ ascq ≤ Gen.vendorAscHi) := by rw [v1]; omega
-  simp [h1, h2, ht]
+  simp [describeAscq, ht]
+
+/-- hence the well-known assignments are described by their T10 text -/
+theorem known_codes_described (e : Nat × Nat × String) (he : e ∈ Std.ascqNames) :
+    ∃ t, describeAscq e.1 e.2.1 = t ∧ upper t = e.2.2 := by
+  have h := List.all_eq_true.mp known_codes_have_t10_text e he
+  cases hl : lookupText Gen.senseAscq (e.1 * 256 + e.2.1) with
+  | none => simp [hl] at h
+  | some t =>
+    simp only [hl, Option.map_some, beq_iff_eq, Option.some.injEq] at h
+    exact ⟨t, listed_pair_uses_table _ _ t hl, h⟩
 
 example : (mk [0x72, 0x05, 0x24, 0x00, 0, 0, 0, 0]).toOption.bind triple = some (5, 0x24, 0) := by decide +kernel
 
